@@ -52,7 +52,7 @@ VARIABLES lay,      \* the layout (fixed)
 vars == <<lay, src, labels, g, pc, text, cur, prev, res, op, arg, cn, nops>>
 
 Seed == IF "VERIF_SEED" \in DOMAIN IOEnv THEN atoi(IOEnv.VERIF_SEED) % 10007 ELSE 0
-Sampled(l) == SampleMod = 1 \/ Hash(l, Seed) % SampleMod = 0
+Sampled(l) == IF SampleMod = 1 THEN TRUE ELSE Hash(l, Seed) % SampleMod = 0
 
 NoArg == [name |-> "", k |-> 0, ii |-> FALSE, g |-> 0]
 
